@@ -5,7 +5,7 @@
 //! (`layoutmodel`) expects followed by the observed answer in the driver's canonical format; see
 //! `common.rs` for the output protocol.
 //!
-//!   gcverif-layout --prop C17|C18|C11 [--tier quick|thorough] [--seed N] [--start IDX]
+//!   gcverif-layout --prop C17|C18|C11|C03|C04 [--tier quick|thorough] [--seed N] [--start IDX]
 //!                  [--only FILE] [--list]
 
 mod c11;
@@ -343,6 +343,7 @@ fn c18(cx: &mut Cx) {
     slice_copy_grid::<V64<64>>(cx);
     slice_copy_grid::<V4096<1>>(cx);
     str_grid(cx);
+    ctor_grid(cx);
 }
 
 /// C11 (panic safety), builder clause: repeated builder faults on one arena.
@@ -449,6 +450,12 @@ fn main() {
         c18(&mut cx);
     }
     if prop == "C11" || prop == "all" {
+        c11(&mut cx);
+    }
+    if prop == "C03" {
+        // C03's clause "no value destructed / no allocation released while a callback runs",
+        // judged on every builder scenario and fault sequence (monitor `C03: …`)
+        c18(&mut cx);
         c11(&mut cx);
     }
     let _ = writeln!(cx.out, "Z {}", cx.ran);
